@@ -84,6 +84,13 @@ def product (p : Dec) (n : Nat) : Nat := p.mant * n / 10 ^ p.scale
 def exactFee (rate : Dec) (amount : Nat) : Nat :=
   (2 * rate.mant * amount + 10 ^ rate.scale) / (2 * 10 ^ rate.scale)
 
+/-- the fee a rate demands on `amount`: `rate × amount` rounded half away from zero; a
+    negative result cannot be escrowed (`none`), a negative rate whose fee rounds to zero
+    demands nothing -/
+def admissibleFee (rate : Dec) (amount : Nat) : Option Nat :=
+  let m := exactFee rate amount
+  if rate.neg && m != 0 then none else some m
+
 /-- magnitude hypothesis of one product (DESIGN §4.2): the 96-bit decimal computes
     `p × n` without rounding -/
 def exactMul (p : Dec) (n : Nat) : Bool :=
@@ -432,10 +439,12 @@ def C07_bidConds (env : Env) (s : State) (c : Call) (id base : String) (fee : Op
   (match Dec.parse price, bidRate s.info with
    | some p, some rate =>
      wholeProduct p size && product p size == quoteSize && decide (quoteSize ≥ 1) &&
-     !rate.neg &&
-     (match fee with
-      | some f => f.amount == exactFee rate quoteSize && f.denom == quote
-      | none => exactFee rate quoteSize == 0)
+     (match admissibleFee rate quoteSize with
+      | none => false
+      | some due =>
+        (match fee with
+         | some f => f.amount == due && f.denom == quote
+         | none => due == 0))
    | _, _ => false)
 
 def C07_bidOK (env : Env) (s : State) (c : Call) (id base : String) (fee : Option Coin)
